@@ -8,6 +8,7 @@ checking the transcribed path and bounds predicates against the requirement; the
 model whose initializer uses that external data in a real directory tree and loads it through FileLoader,
 MmapLoader and MemLoader; Trace_ExtData decides from the recorded outcome and bytes."""
 import json
+import os
 
 import vlib
 
@@ -41,7 +42,53 @@ def run(ctx):
     ctx.cov["cases_generated_by_tlc"] = n
     ctx.harness("vh-load", ["extdata", "--cases", cases, "--out", trace], timeout=3000)
     res = ctx.tlc_trace(SPEC, CFG, trace, timeout=3000, heap="12g")
+    if not ctx.quick or os.environ.get("VERIF_SELFTEST"):
+        selftest(ctx, trace)
     finish(ctx, trace, res, n)
+
+
+def selftest(ctx, trace):
+    """Binding self-test: corrupt recorded results and require the trace spec to reject them."""
+    recs = [json.loads(l) for l in open(trace)]
+    out = [recs[0]]
+    want = {"bytes are not those of the named file": False, "disallowed location loaded": False,
+            "out-of-range bytes loaded": False, "panic": False}
+    i = 1
+    done = set()
+    while i + 1 < len(recs):
+        c, r = recs[i], recs[i + 1]
+        i += 2
+        if "flip" not in done and r["outcome"] == "ok" and len(r["data"]) == 8 and c["kind"] == "path":
+            r = dict(r, data=[r["data"][0] ^ 1] + r["data"][1:])
+            done.add("flip")
+        elif "escape" not in done and c["t"] == ["sub", "/", "in.data"] and c["loader"] == "file":
+            # what a loader without the path check would return: the bytes of model/sub/in.data (file 20)
+            r = dict(r, outcome="ok", err="", data=[(20 * 37 + j * 7 + 11) % 251 for j in range(8)])
+            done.add("escape")
+        elif "range" not in done and c["kind"] == "range" and c["off"] == [63] and c["len"] == [8] and c["loader"] == "mmap":
+            r = dict(r, outcome="ok", err="", data=[(1 * 37 + (63 + j) * 7 + 11) % 251 for j in range(8)])
+            done.add("range")
+        elif "panic" not in done and r["outcome"] == "err" and c["kind"] == "path" and len(c["t"]) == 2:
+            r = dict(r, outcome="panic")
+            done.add("panic")
+        else:
+            if len(out) > 4000:
+                continue
+        out += [c, r]
+    st = ctx.path("selftest.ndjson")
+    with open(st, "w") as f:
+        for k, r in enumerate(out):
+            r["seq"] = k + 1
+            f.write(json.dumps(r) + "\n")
+    res = ctx.tlc_trace(SPEC, CFG, st, timeout=1800)
+    for b in res["bad"]:
+        if b["sig"]["class"] in want:
+            want[b["sig"]["class"]] = True
+    missing = [k for k, v in want.items() if not v]
+    ctx.cov["binding_selftest"] = {"corruptions": sorted(done), "rejected_classes": [k for k, v in want.items() if v]}
+    if missing or len(done) < 4:
+        raise vlib.ToolError("binding self-test failed: corrupted trace not rejected for %s (applied %s)" % (missing, sorted(done)))
+    ctx.log("binding self-test: 4 corrupted results rejected by Trace_ExtData")
 
 
 def finish(ctx, trace, res, n):
